@@ -397,6 +397,8 @@ class Env:
             if s is not None and s.get('returns_fresh'):
                 r = self._args_reach(call)
                 return fresh(r, r)
+            if s is not None and s.get('returns_global'):
+                return Val({('global', g) for g in s['returns_global']})
         t = self._args_reach(call)
         if isinstance(f, ast.Attribute) and d is None:
             recv = self.ev(f.value)
